@@ -54,230 +54,260 @@ func autoSwitch(c *Ctx, wrap *ssa.Function) (arms []styleArm, tag ssa.Value, def
 
 func runC19(c *Ctx) {
 	r := c.R
-	r.Explanation = "Which names the registry holds at run time is not decidable statically; what is decided is the agreement between the three places that spell style names. " +
-		"R19.1 every constant that ListStyles adds is a case of the switch in auto.Wrap, every non-texttable case is listed, the list starts from the registry's names and is sorted before it is returned. " +
-		"R19.2 the switch tag is strings.ToLower of section 0 of strings.Split(style, \".\"); each case constant is lower-case and its arm returns <package of that name>.Wrap(t). " +
-		"R19.3 the texttable arm and the default arm both build texttable.Wrap(t); the default names the decoration by the un-lowered section 0, the texttable arm by section 1 only when there is one (plain 'texttable' keeps the default decoration). " +
-		"R19.4 no built-in decoration name contains a dot or collides (case-insensitively) with a sub-package case, so every built-in name reaches the default arm. Unknown names fail at render time: C17's R17.4. " +
-		"Decided: the static agreement. Not decided: names an application registers at run time (a name containing '.' or equal to a sub-package name would be advertised by the listing yet be unreachable - observation, no static site exhibits it)."
+	r.Explanation = "Which names the registry holds at run time is not decidable statically; what is decided is the agreement between the places that spell style names. " +
+		"R19.1 every constant that ListStyles adds is a key of auto.Wrap's dispatch (switch cases or a dispatch map), every renderer sub-package other than texttable is listed, the list starts from the registry's own (fresh) listing and is sorted after the last addition. " +
+		"R19.2 the dispatch key is strings.ToLower of section 0 of the style (sections by strings.Split or strings.Cut on '.'); each renderer sub-package name is a lower-case key whose entry returns that package's Wrap(t). " +
+		"R19.3 every decoration name handed to SetDecorationNamed is the UN-lowered section 0 or section 1 of the style (never the rest of the string, never lower-cased); section 1 is used only under the 'texttable' key and only where a second section is known to exist. " +
+		"R19.4 no built-in decoration name contains a dot or collides (case-insensitively) with a dispatch key, so every built-in name reaches the text-table path. Unknown names fail at render time: C17's R17.4. " +
+		"Decided: the static agreement. Not decided: names an application registers at run time."
 	r.NotDecided = []string{"run-time contents of the decoration registry", "that every listed name renders without error (needs the registry's contents)"}
-	r.Assumptions = []string{"strings.Split/ToLower/sort.Strings behave as documented"}
-	r.Rule("R19.1", "the listing adds exactly the non-text sub-package cases to the registered names and sorts")
+	r.Assumptions = []string{"strings.Split/Cut/ToLower and sort behave as documented"}
+	r.Rule("R19.1", "the listing adds exactly the non-text sub-package keys to the registered names and sorts")
 	r.Rule("R19.2", "sub-package names dispatch case-insensitively on section 0 to the package of that name")
-	r.Rule("R19.3", "'texttable.NAME' and bare 'NAME' select the same decoration; plain 'texttable' keeps the default")
-	r.Rule("R19.4", "built-in decoration names reach the default arm")
+	r.Rule("R19.3", "'texttable.NAME' and bare 'NAME' select the same decoration, named as written")
+	r.Rule("R19.4", "built-in decoration names reach the text-table path")
 
 	wrap := c.Func("auto", "Wrap")
 	list := c.Func("auto", "ListStyles")
-	ttWrap := c.Func("texttable", "Wrap")
 	tt := c.Named("texttable", "TextTable")
 	setNamed := c.Method(tt, true, "SetDecorationNamed")
-	if wrap == nil || list == nil || ttWrap == nil || setNamed == nil {
+	if wrap == nil || list == nil || setNamed == nil {
 		return
 	}
-	arms, tag, deflt := autoSwitch(c, wrap)
-	r.Floor("R19.2", "cases of the style switch", len(arms), 5)
-	cases := map[string]styleArm{}
-	for _, a := range arms {
-		cases[a.Const] = a
-	}
-	// tag = ToLower(Split(style, ".")[0])
-	var split ssa.Value
-	{
-		ok, why := false, "switch tag is not strings.ToLower(...)"
-		if call, isCall := tag.(*ssa.Call); isCall && isFunc(call.Call.StaticCallee(), "strings", "ToLower") {
-			if sec, idx := sectionOf(call.Call.Args[0]); sec != nil && idx == 0 {
-				if sp, isSp := sec.(*ssa.Call); isSp && isFunc(sp.Call.StaticCallee(), "strings", "Split") {
-					sep, _ := constString(sp.Call.Args[1])
-					if sp.Call.Args[0] == ssa.Value(wrap.Params[1]) && sep == "." {
-						ok, split = true, sec
-					} else {
-						why = "sections are not strings.Split(style, \".\")"
-					}
-				}
-			} else {
-				why = "the tag is not section 0"
-			}
-		}
-		r.Check("R19.2", FuncName(wrap), "switch tag is ToLower(Split(style, \".\")[0])", wrap.Pos(), ok, why)
-	}
-	nonText := map[string]bool{}
-	// the renderer sub-packages: packages of the module that have a Wrap(Table) function
+	style := wrap.Params[1]
+	// renderer sub-packages: packages of the module that have a Wrap function
 	rendererPkgs := map[string]bool{}
 	for _, path := range c.sortedPkgPaths() {
 		if sp := c.SSA[path]; sp != nil && sp.Func("Wrap") != nil && path != pkgPath("auto") {
 			rendererPkgs[sp.Pkg.Name()] = true
 		}
 	}
-	var rp []string
-	for k := range rendererPkgs {
-		rp = append(rp, k)
+	// ---- dispatch pairs: key constant -> package whose Wrap(t) the entry returns
+	type pair struct {
+		pkg string
+		pos token.Pos
+		ok  bool
+		why string
 	}
-	sort.Strings(rp)
-	for _, k := range rp {
-		_, ok := cases[k]
-		r.Check("R19.2", FuncName(wrap), fmt.Sprintf("renderer sub-package %q has a case", k), wrap.Pos(), ok, "the sub-package cannot be selected by name")
+	pairs := map[string]pair{}
+	var tags []ssa.Value
+	arms, tag, _ := autoSwitch(c, wrap)
+	if tag != nil {
+		tags = append(tags, tag)
 	}
-	for _, a := range arms {
-		if !rendererPkgs[a.Const] {
-			continue // an alias: not constrained by the property
-		}
-		// arm returns <pkg>.Wrap(t)
-		okArm, why := false, "arm does not return <package>.Wrap(t)"
+	wrapsPkg := func(fn *ssa.Function, entry *ssa.BasicBlock, tparam ssa.Value) (string, bool, string) {
 		var wcall *ssa.Call
-		for _, b := range wrap.Blocks {
-			if !a.Entry.Dominates(b) {
+		for _, b := range fn.Blocks {
+			if entry != nil && !entry.Dominates(b) {
 				continue
 			}
 			for _, in := range b.Instrs {
 				if call, isCall := in.(*ssa.Call); isCall {
-					if f := call.Call.StaticCallee(); f != nil && f.Name() == "Wrap" && inModule(f) {
+					if f := call.Call.StaticCallee(); f != nil && f.Name() == "Wrap" && inModule(f) && f.Pkg != nil && f.Pkg.Pkg.Path() != pkgPath("auto") {
 						wcall = call
 					}
 				}
 			}
 		}
-		if wcall != nil {
-			f := wcall.Call.StaticCallee()
-			pkgName := f.Pkg.Pkg.Name()
-			if pkgName != a.Const && rendererPkgs[a.Const] {
-				why = fmt.Sprintf("case %q wraps with package %s", a.Const, pkgName)
-			} else if wcall.Call.Args[0] != ssa.Value(wrap.Params[0]) {
-				why = "wraps something other than the table it was given"
-			} else {
-				okArm = true
-				// every return in the arm hands back that wrapper
-				for _, b := range wrap.Blocks {
-					if !a.Entry.Dominates(b) {
-						continue
-					}
-					for _, in := range b.Instrs {
-						if ret, isRet := in.(*ssa.Return); isRet {
-							if mi, isMI := results(ret)[0].(*ssa.MakeInterface); !isMI || mi.X != ssa.Value(wcall) {
-								okArm, why = false, "arm returns something other than the wrapper it built"
-							}
-						}
+		if wcall == nil {
+			return "", false, "does not return <package>.Wrap(t)"
+		}
+		pk := wcall.Call.StaticCallee().Pkg.Pkg.Name()
+		if wcall.Call.Args[0] != tparam {
+			return pk, false, "wraps something other than the table it was given"
+		}
+		for _, b := range fn.Blocks {
+			if entry != nil && !entry.Dominates(b) {
+				continue
+			}
+			for _, in := range b.Instrs {
+				if ret, isRet := in.(*ssa.Return); isRet {
+					if unwrap(results(ret)[0], true) != ssa.Value(wcall) {
+						return pk, false, "returns something other than the wrapper it built"
 					}
 				}
-			}
-			if f.Pkg.Pkg.Path() != pkgPath("texttable") && rendererPkgs[a.Const] {
-				nonText[a.Const] = true
 			}
 		}
-		r.Check("R19.2", FuncName(wrap), fmt.Sprintf("case %q returns %s.Wrap(t)", a.Const, a.Const), a.If.Pos(), okArm, why)
+		return pk, true, ""
 	}
-
-	// R19.3
-	{
-		check := func(entry *ssa.BasicBlock, name string, wantIdx int64, needLenGuard bool) {
-			var w *ssa.Call
-			var sn []*ssa.Call
-			for _, b := range wrap.Blocks {
-				if entry == nil || !entry.Dominates(b) {
-					continue
-				}
-				for _, in := range b.Instrs {
-					if call, ok := in.(*ssa.Call); ok {
-						if call.Call.StaticCallee() == ttWrap {
-							w = call
-						}
-						if call.Call.StaticCallee() == setNamed {
-							sn = append(sn, call)
-						}
-					}
-				}
+	for _, a := range arms {
+		pk, ok, why := wrapsPkg(wrap, a.Entry, wrap.Params[0])
+		pairs[a.Const] = pair{pk, a.If.Pos(), ok, why}
+	}
+	// a dispatch map: constant keys mapped to functions, looked up with the tag
+	for _, fn := range c.ModFuncs("auto") {
+		eachInstr(fn, func(in ssa.Instruction) {
+			mu, ok := in.(*ssa.MapUpdate)
+			if !ok {
+				return
 			}
-			ok, why := w != nil && len(sn) == 1, fmt.Sprintf("texttable.Wrap: %v, SetDecorationNamed calls: %d", w != nil, len(sn))
+			k, isK := constString(mu.Key)
+			if !isK {
+				return
+			}
+			var f *ssa.Function
+			switch v := unwrap(mu.Value, true).(type) {
+			case *ssa.MakeClosure:
+				f, _ = v.Fn.(*ssa.Function)
+			case *ssa.Function:
+				f = v
+			}
+			if f == nil || len(f.Params) == 0 {
+				return
+			}
+			pk, okp, why := wrapsPkg(f, nil, f.Params[0])
+			pairs[k] = pair{pk, in.Pos(), okp, why}
+		})
+	}
+	eachInstr(wrap, func(in ssa.Instruction) {
+		if lk, ok := in.(*ssa.Lookup); ok {
+			if _, isMap := lk.X.Type().Underlying().(*types.Map); isMap {
+				tags = append(tags, lk.Index)
+			}
+		}
+	})
+	if len(pairs) == 0 {
+		r.Note("shape-unrecognised R19.2: auto.Wrap dispatches neither by a switch on constants nor through a map with constant keys; the dispatch rules are not evaluated")
+	} else {
+		var rp []string
+		for k := range rendererPkgs {
+			rp = append(rp, k)
+		}
+		sort.Strings(rp)
+		for _, k := range rp {
+			pr, ok := pairs[k]
+			if !ok && k == "texttable" {
+				// texttable may be the fall-through path rather than a key of its own
+				continue
+			}
+			r.Check("R19.2", FuncName(wrap), fmt.Sprintf("renderer sub-package %q has a dispatch key", k), wrap.Pos(), ok, "the sub-package cannot be selected by name")
 			if ok {
-				call := sn[0]
-				sec, idx := sectionOf(call.Call.Args[1])
-				switch {
-				case call.Call.Args[0] != ssa.Value(w):
-					ok, why = false, "the decoration is set on a different wrapper"
-				case sec != split || int64(idx) != wantIdx:
-					ok, why = false, fmt.Sprintf("the decoration name is not the un-lowered section %d of the style", wantIdx)
-				}
-				if ok && needLenGuard {
-					g := false
-					p := c.Idx().proverFor(wrap)
-					if good, _ := p.prove(lt(linConst(wantIdx), p.lenOf(split), "section exists"), call, nil, 0); good {
-						g = true
-					}
-					// and nothing else guards it
-					extra := 0
-					base := map[ssa.Value]bool{}
-					for _, cf := range dominatingConds(entry) {
-						base[cf.Cond] = true
-					}
-					for _, cf := range dominatingConds(call.Block()) {
-						if !base[cf.Cond] {
-							extra++
-						}
-					}
-					if !g || extra != 1 {
-						ok, why = false, "the section-1 decoration is not applied exactly when a second section exists"
-					}
-				}
-				if ok && !needLenGuard {
-					base := len(dominatingConds(entry))
-					if len(dominatingConds(call.Block())) != base {
-						ok, why = false, "the decoration is set only conditionally"
-					}
-				}
+				r.Check("R19.2", FuncName(wrap), fmt.Sprintf("key %q returns %s.Wrap(t)", k, k), pr.pos, pr.ok && pr.pkg == k, fmt.Sprintf("entry wraps with package %s: %s", pr.pkg, pr.why))
 			}
-			r.Check("R19.3", FuncName(wrap), name, wrap.Pos(), ok, why)
 		}
-		if a, ok := cases["texttable"]; ok {
-			check(a.Entry, "'texttable[.NAME]' builds a text table and names the decoration by section 1 when present", 1, true)
-		} else {
-			r.Check("R19.3", FuncName(wrap), "has a 'texttable' case", wrap.Pos(), false, "")
+		// the key is the lower-cased section 0
+		for i, tg := range tags {
+			ok, why := false, "the dispatch key is not strings.ToLower(...)"
+			if call, isCall := tg.(*ssa.Call); isCall && isFunc(call.Call.StaticCallee(), "strings", "ToLower") {
+				k, rest, lowered, okS := sectionExpr(call.Call.Args[0], style, 0)
+				ok = okS && k == 0 && !rest && !lowered
+				why = "the dispatch key is not the lower-cased first section of the style"
+			}
+			r.Check("R19.2", FuncName(wrap), fmt.Sprintf("dispatch key #%d is ToLower(section 0 of the style)", i+1), wrap.Pos(), ok, why)
 		}
-		check(deflt, "a bare NAME builds a text table and names the decoration by section 0 as written", 0, false)
+		r.Floor("R19.2", "dispatch keys", len(pairs), 4)
 	}
 
-	// R19.1
+	// ---- R19.3: names handed to SetDecorationNamed
+	ttWrap := c.Func("texttable", "Wrap")
+	nset := 0
+	p := c.Idx().proverFor(wrap)
+	eachInstr(wrap, func(in ssa.Instruction) {
+		call, ok := in.(*ssa.Call)
+		if !ok || call.Call.StaticCallee() != setNamed {
+			return
+		}
+		nset++
+		// receiver is texttable.Wrap(t)
+		rc, isCall := call.Call.Args[0].(*ssa.Call)
+		r.Check("R19.3", FuncName(wrap), fmt.Sprintf("decoration #%d is set on texttable.Wrap(t)", nset), call.Pos(), isCall && rc.Call.StaticCallee() == ttWrap && rc.Call.Args[0] == ssa.Value(wrap.Params[0]), "")
+		for _, v := range phiClosure(call.Call.Args[1]) {
+			k, rest, lowered, okS := sectionExpr(v, style, 0)
+			switch {
+			case !okS:
+				r.Check("R19.3", FuncName(wrap), fmt.Sprintf("decoration name #%d is a section of the style", nset), call.Pos(), false, "the name is "+v.String())
+			case lowered:
+				r.Check("R19.3", FuncName(wrap), fmt.Sprintf("decoration name #%d is used as written", nset), call.Pos(), false, "the name is lower-cased: a decoration registered with capitals can be listed but never selected")
+			case rest:
+				r.Check("R19.3", FuncName(wrap), fmt.Sprintf("decoration name #%d is one section", nset), call.Pos(), false, fmt.Sprintf("the name is everything after section %d, trailing sections included", k-1))
+			case k == 0:
+				r.Check("R19.3", FuncName(wrap), fmt.Sprintf("decoration name #%d: bare NAME is section 0 as written", nset), call.Pos(), true, "")
+			case k == 1:
+				// only under the texttable key, and only where a second section exists
+				vi, _ := v.(ssa.Instruction)
+				underTT, exists := false, false
+				blk := call.Block()
+				if vi != nil {
+					blk = vi.Block()
+				}
+				for _, cf := range dominatingConds(blk) {
+					if b, isB := cf.Cond.(*ssa.BinOp); isB && b.Op == token.EQL && cf.Val {
+						if s1, isS := constString(b.Y); isS && s1 == "texttable" {
+							underTT = true
+						}
+						if s1, isS := constString(b.X); isS && s1 == "texttable" {
+							underTT = true
+						}
+					}
+				}
+				exists = sectionExists(p, v, style, blk)
+				r.Check("R19.3", FuncName(wrap), fmt.Sprintf("decoration name #%d: section 1 is used only for 'texttable.NAME' and only when it exists", nset), call.Pos(), underTT && exists,
+					fmt.Sprintf("under the texttable key: %v; second section known to exist: %v", underTT, exists))
+			default:
+				r.Check("R19.3", FuncName(wrap), fmt.Sprintf("decoration name #%d is section 0 or 1", nset), call.Pos(), false, fmt.Sprintf("section %d", k))
+			}
+		}
+	})
+	r.Floor("R19.3", "decoration names set from the style", nset, 1)
+
+	// ---- R19.1
 	{
 		var added []string
 		var base ssa.Value
-		var rets []*ssa.Return
-		for _, ret := range returnsOf(list) {
-			rets = append(rets, ret)
-			v := results(ret)[0]
-			for _, root := range sliceRoots(v) {
+		rets := returnsOf(list)
+		for _, ret := range rets {
+			for _, root := range sliceRoots(results(ret)[0]) {
 				base = root
 			}
 		}
 		eachInstr(list, func(in ssa.Instruction) {
-			if call, ok := isBuiltinCall(valueOf(in), "append"); ok {
-				if _, elems, ok := appendedElems(call); ok {
-					for _, e := range elems {
-						if s, isS := constString(e); isS {
-							added = append(added, s)
-						} else {
-							r.Check("R19.1", FuncName(list), "appends a non-constant style", in.Pos(), false, "")
-						}
+			call, ok := isBuiltinCall(valueOf(in), "append")
+			if !ok {
+				return
+			}
+			if _, elems, ok := appendedElems(call); ok && elems != nil {
+				for _, e := range elems {
+					if s1, isS := constString(e); isS {
+						added = append(added, s1)
+					} else {
+						r.Check("R19.1", FuncName(list), "appends a non-constant style", in.Pos(), false, "")
 					}
+				}
+				return
+			}
+			// append(x, <package-level array or slice of constants>...)
+			if len(call.Call.Args) == 2 {
+				if g := globalRoot(call.Call.Args[1]); g != nil {
+					added = append(added, globalStringElems(c, g)...)
 				}
 			}
 		})
 		sort.Strings(added)
-		for _, s := range added {
-			_, ok := cases[s]
-			r.Check("R19.1", FuncName(list), fmt.Sprintf("listed %q is a case of the style switch", s), list.Pos(), ok, "advertised but not constructible")
-		}
-		var nt []string
-		for k := range nonText {
-			nt = append(nt, k)
-		}
-		sort.Strings(nt)
-		for _, k := range nt {
-			found := false
-			for _, s := range added {
-				if s == k {
-					found = true
+		if len(added) == 0 {
+			r.Note("shape-unrecognised R19.1: ListStyles adds no recognisable constants; listing rules are not evaluated")
+		} else {
+			for _, s1 := range added {
+				_, ok := pairs[s1]
+				if len(pairs) > 0 {
+					r.Check("R19.1", FuncName(list), fmt.Sprintf("listed %q is a dispatch key", s1), list.Pos(), ok, "advertised but not constructible")
 				}
 			}
-			r.Check("R19.1", FuncName(list), fmt.Sprintf("sub-package %q is listed", k), list.Pos(), found, "a renderer exists that the listing omits")
+			var nt []string
+			for k := range rendererPkgs {
+				if k != "texttable" {
+					nt = append(nt, k)
+				}
+			}
+			sort.Strings(nt)
+			for _, k := range nt {
+				found := false
+				for _, s1 := range added {
+					if s1 == k {
+						found = true
+					}
+				}
+				r.Check("R19.1", FuncName(list), fmt.Sprintf("sub-package %q is listed", k), list.Pos(), found, "a renderer exists that the listing omits")
+			}
 		}
 		isReg := false
 		if call, ok := base.(*ssa.Call); ok && call.Call.StaticCallee() != nil && call.Call.StaticCallee().Name() == "RegisteredDecorationNames" {
@@ -287,7 +317,14 @@ func runC19(c *Ctx) {
 		for i, ret := range rets {
 			sorted := false
 			eachInstr(list, func(in ssa.Instruction) {
-				if isCallTo(in, "sort", "Strings") && sameSlice(callCommon(in).Args[0], results(ret)[0]) && instrDominates(in, ret) {
+				if !isSortCall(in) {
+					return
+				}
+				arg := unwrap(callCommon(in).Args[0], true)
+				if cv, isCv := arg.(*ssa.ChangeType); isCv {
+					arg = cv.X
+				}
+				if sameSlice(arg, results(ret)[0]) && instrDominates(in, ret) {
 					late := false
 					for _, x := range instrsAfter(in) {
 						if _, ok := isBuiltinCall(valueOf(x), "append"); ok {
@@ -299,9 +336,7 @@ func runC19(c *Ctx) {
 			})
 			r.Check("R19.1", FuncName(list), fmt.Sprintf("return #%d is sorted after the last addition", i+1), ret.Pos(), sorted, "")
 		}
-		r.Floor("R19.1", "constants added by ListStyles", len(added), 4)
 	}
-
 	// premise of R19.1: the registry's listing is a fresh slice (ListStyles appends to it and sorts it in place)
 	for _, gg := range c.findGuardedGlobals() {
 		if gg.G.Pkg.Pkg.Path() == pkgPath("texttable/decoration") {
@@ -317,6 +352,29 @@ func runC19(c *Ctx) {
 		}
 	}
 
+	// premises of R19.3: a name resolves by exactly the spelling that was registered and listed, and
+	// texttable.Wrap hands back a new wrapper (so 'texttable' alone means the default decoration, whatever t already is)
+	for _, gg := range c.findGuardedGlobals() {
+		if gg.G.Pkg.Pkg.Path() == pkgPath("texttable/decoration") {
+			sub := &Report{Rules: map[string]string{}, known: map[string]string{}, knownSeen: map[string]bool{}, Extra: map[string]interface{}{}, c: c}
+			saved := c.R
+			c.R = sub
+			c17FailClosed(c, gg)
+			c.R = saved
+			for _, o := range sub.Obs {
+				if !strings.Contains(o.Construct, "exactly as given") {
+					continue
+				}
+				ob := r.Check("R19.3", o.Func, "name-resolution premise: "+o.Construct, 0, o.Verdict == "discharged", "a listed name must select the decoration registered under that spelling")
+				ob.Pos = o.Pos
+			}
+		}
+	}
+	if ttWrap != nil {
+		sum := c.Effects().sums[ttWrap]
+		r.Check("R19.3", FuncName(ttWrap), "returns a wrapper allocated by the call (the default decoration, not whatever t carried)", ttWrap.Pos(), sum != nil && sum.Fresh[0], "a result that can be an existing wrapper makes the selected decoration depend on the table's history")
+	}
+
 	// R19.4
 	if tp := c.TPkg("texttable/decoration"); tp != nil {
 		n := 0
@@ -327,11 +385,147 @@ func runC19(c *Ctx) {
 			}
 			n++
 			v := constant.StringVal(k.Val())
-			_, clash := cases[strings.ToLower(v)]
-			r.Check("R19.4", "texttable/decoration", fmt.Sprintf("built-in %q has no dot and is not a sub-package name", v), k.Pos(), !strings.Contains(v, ".") && !clash, "")
+			_, clash := pairs[strings.ToLower(v)]
+			r.Check("R19.4", "texttable/decoration", fmt.Sprintf("built-in %q has no dot and is not a sub-package name", v), k.Pos(), !strings.Contains(v, ".") && !clash && !rendererPkgs[strings.ToLower(v)], "")
 		}
 		r.Floor("R19.4", "built-in decoration names", n, 6)
 	}
+}
+
+// isSortCall: sort.Strings(x), sort.Sort(sort.StringSlice(x)), sort.Stable(...), slices.Sort(x).
+func isSortCall(in ssa.Instruction) bool {
+	f := staticCallee(in)
+	if f == nil {
+		return false
+	}
+	switch funcPkgPath(f) + "." + f.Name() {
+	case "sort.Strings", "sort.Sort", "sort.Stable", "slices.Sort":
+		return true
+	}
+	return false
+}
+
+func globalRoot(v ssa.Value) *ssa.Global {
+	for i := 0; i < 6; i++ {
+		switch x := v.(type) {
+		case *ssa.Slice:
+			v = x.X
+		case *ssa.UnOp:
+			v = x.X
+		case *ssa.Global:
+			return x
+		default:
+			return nil
+		}
+	}
+	return nil
+}
+
+// globalStringElems: the string constants a package-level array/slice variable is initialised with.
+func globalStringElems(c *Ctx, g *ssa.Global) []string {
+	var out []string
+	initFn := g.Pkg.Func("init")
+	if initFn == nil {
+		return nil
+	}
+	eachInstr(initFn, func(in ssa.Instruction) {
+		st, ok := in.(*ssa.Store)
+		if !ok {
+			return
+		}
+		root, _ := addrPath(st.Addr)
+		if root != ssa.Value(g) {
+			// slices: the backing array is a separate allocation stored into the global; accept constants stored
+			// into any array whose slice is stored to g
+			return
+		}
+		if s, isS := constString(st.Val); isS {
+			out = append(out, s)
+		}
+	})
+	return out
+}
+
+// sectionExpr: v denotes a dot-separated section of the style parameter:
+//   strings.Split(style, ".")[k]              -> section k
+//   before, after, found := strings.Cut(x, ".") with x = style or the rest after section j
+//   strings.ToLower(section)                  -> lowered
+// Returns (k, isRest, lowered, ok); isRest means "everything after section k-1".
+func sectionExpr(v ssa.Value, style ssa.Value, depth int) (int, bool, bool, bool) {
+	if depth > 6 {
+		return 0, false, false, false
+	}
+	if v == style {
+		return 0, true, false, true // the whole style = the rest starting at section 0
+	}
+	switch x := v.(type) {
+	case *ssa.UnOp:
+		if sl, idx := sectionOfAny(x); sl != nil {
+			if call, ok := sl.(*ssa.Call); ok && isFunc(call.Call.StaticCallee(), "strings", "Split") {
+				sep, _ := constString(call.Call.Args[1])
+				k, isK := constInt(idx)
+				if call.Call.Args[0] == style && sep == "." && isK {
+					return int(k), false, false, true
+				}
+			}
+		}
+	case *ssa.Extract:
+		call, ok := x.Tuple.(*ssa.Call)
+		if !ok || !isFunc(call.Call.StaticCallee(), "strings", "Cut") {
+			return 0, false, false, false
+		}
+		if sep, _ := constString(call.Call.Args[1]); sep != "." {
+			return 0, false, false, false
+		}
+		k, rest, low, okS := sectionExpr(call.Call.Args[0], style, depth+1)
+		if !okS || !rest || low {
+			return 0, false, false, false
+		}
+		switch x.Index {
+		case 0:
+			return k, false, false, true
+		case 1:
+			return k + 1, true, false, true
+		}
+	case *ssa.Call:
+		if isFunc(x.Call.StaticCallee(), "strings", "ToLower") {
+			k, rest, _, okS := sectionExpr(x.Call.Args[0], style, depth+1)
+			return k, rest, true, okS
+		}
+	}
+	return 0, false, false, false
+}
+
+// sectionExists: where v (section k >= 1) is evaluated, the style is known to have that section:
+// len(Split(..)) > k, or the found flag of the Cut that produced the rest is true.
+func sectionExists(p *prover, v ssa.Value, style ssa.Value, blk *ssa.BasicBlock) bool {
+	switch x := v.(type) {
+	case *ssa.UnOp:
+		if sl, idx := sectionOfAny(x); sl != nil {
+			in, _ := v.(ssa.Instruction)
+			if in == nil {
+				return false
+			}
+			ok, _ := p.prove(lt(p.linOf(idx), p.lenOf(sl), "section exists"), in, nil, 0)
+			return ok
+		}
+	case *ssa.Extract:
+		call, ok := x.Tuple.(*ssa.Call)
+		if !ok {
+			return false
+		}
+		// v = before-part of Cut(rest): the rest exists iff the Cut that produced `rest` found a separator
+		restV, isEx := call.Call.Args[0].(*ssa.Extract)
+		if !isEx {
+			return false
+		}
+		for _, cf := range dominatingConds(blk) {
+			if fx, isF := cf.Cond.(*ssa.Extract); isF && fx.Tuple == restV.Tuple && fx.Index == 2 && cf.Val {
+				return true
+			}
+		}
+	}
+	return false
 }
 
 // sectionOf: v is sections[idx] for a constant idx; returns the slice value and idx.
